@@ -335,6 +335,33 @@ pub fn run(rep: &mut Report) {
                 }
             }
         }
+        // bare wires: n = 1..3 wires in every permutation, with no / one Hadamard wire, with and without an extra
+        // isolated spider (the identity test must say yes for exactly one of them per n)
+        for n in 1..=3usize {
+            let perms: Vec<Vec<usize>> = match n {
+                1 => vec![vec![0]],
+                2 => vec![vec![0, 1], vec![1, 0]],
+                _ => vec![vec![0, 1, 2], vec![0, 2, 1], vec![1, 0, 2], vec![1, 2, 0], vec![2, 0, 1], vec![2, 1, 0]],
+            };
+            for perm in perms {
+                for had in 0..=n {
+                    for iso in 0..3 {
+                        let mut d = DiagSpec::empty();
+                        let ins: Vec<u8> = (0..n).map(|_| d.add(0, (0, 1))).collect();
+                        let outs: Vec<u8> = (0..n).map(|_| d.add(0, (0, 1))).collect();
+                        for i in 0..n {
+                            d.edges.push((ins[i], outs[perm[i]], had == i + 1));
+                        }
+                        d.inputs = ins;
+                        d.outputs = outs;
+                        if iso > 0 {
+                            d.add(1, if iso == 1 { (0, 1) } else { (1, 1) });
+                        }
+                        fam.push(d);
+                    }
+                }
+            }
+        }
         let stats = sweep(&fam, |st, i, spec| {
             watch_begin(i as u64, 2);
             st.inc("cases");
@@ -342,7 +369,7 @@ pub fn run(rep: &mut Report) {
             judge_unary::<quizx::hash_graph::Graph>(st, spec, "hash", None);
             watch_end();
         });
-        rep.absorb("unary on wide diagrams", &format!("{} diagrams with 3 or 4 open wires on a side, a different spider on every wire (uncoupled, chain-coupled, one coupling): every basis list of every length, every single position, every pair of consecutive single-position pluggings", fam.len()), true, None, t0, stats);
+        rep.absorb("unary on wide diagrams", &format!("{} diagrams with 3 or 4 open wires on a side, a different spider on every wire (uncoupled, chain-coupled, one coupling): every basis list of every length, every single position, every pair of consecutive single-position pluggings; plus bare wires (1..3 wires in every permutation, no / one Hadamard wire, with and without an isolated spider)", fam.len()), true, None, t0, stats);
     }
     // binary operations: all ordered pairs
     let (s2, phis2): (usize, Vec<Ph>) = if quick { (1, vec![(0, 1), (1, 4), (1, 1)]) } else { (2, vec![(1, 4), (1, 1)]) };
